@@ -20,6 +20,7 @@
 //	nth        An+B shaped texts
 //	tests      inputs of /repo/css/parser/css-parsing-tests/*.json
 //	mut-*      every-prefix / single-rune deletion / replacement of the above
+//	color-grid / color-tests / color   ParseColorString, see color.go
 package main
 
 import (
@@ -227,10 +228,11 @@ const (
 	eDecls
 	eOneDecl
 	eNth
+	eColor
 	nEntries
 )
 
-var entryNames = [...]string{"Tokenize", "Tokenize/skipComments", "ParseStylesheetBytes", "ParseBlocksContentsString", "ParseDeclarationListString", "ParseOneDeclaration", "ParseNth"}
+var entryNames = [...]string{"Tokenize", "Tokenize/skipComments", "ParseStylesheetBytes", "ParseBlocksContentsString", "ParseDeclarationListString", "ParseOneDeclaration", "ParseNth", "ParseColorString"}
 
 type runner struct {
 	w    *vlib.Writer
@@ -311,6 +313,14 @@ func (rn *runner) run(kind string, e int, fl int, src string) {
 			dump = fmt.Sprintf("a=%d b=%d", out[0], out[1])
 		}
 		coq = fmt.Sprintf("CNth %s %s %s", runes, vlib.Bool(crashed), o)
+	case eColor:
+		var out pr.Color
+		crashed, what = guard(func() { out = pr.ParseColorString(src) })
+		if crashed {
+			out = pr.Color{}
+		}
+		coq = fmt.Sprintf("CColor %s %s %s", runes, vlib.Bool(crashed), coqColor(out))
+		dump = colorDump(out)
 	}
 	tags := []string{"entry=" + entryNames[e]}
 	if crashed {
@@ -804,6 +814,11 @@ func main() {
 	for _, c := range cssedge.Contexts(extra) {
 		c.Enumerate(func(s string) { rn.run("exhaust-ctx", eTok, 0, s) })
 	}
+	// 2d. colours: deterministic grid + the css-parsing-tests colour inputs
+	colorGrid(func(s string) { rn.run("color-grid", eColor, 0, s) })
+	for _, s := range colorTestInputs() {
+		rn.run("color-tests", eColor, 0, s)
+	}
 	fixed := w.N() // the deterministic part does not count against the budget of the random streams
 
 	tests := loadTestInputs()
@@ -821,7 +836,11 @@ func main() {
 		r := rng.Fork()
 		var src, kind string
 		hint := -1
-		switch k := r.Intn(20); {
+		switch k := r.Intn(23); {
+		case k >= 20:
+			kind = "color"
+			src = genColor(r)
+			hint = eColor
 		case k < 3:
 			kind = "short"
 			for j := r.Range(3, 7); j > 0; j-- {
@@ -866,6 +885,9 @@ func main() {
 			continue
 		}
 		e, fl := pickEntry(r, hint)
+		if hint == eColor {
+			e = eColor
+		}
 		rn.run(kind, e, fl, src)
 		// every prefix of a sample of the generated texts (same entry point)
 		if kind != "short" && !strings.HasPrefix(kind, "mut-") && utf8.RuneCountInString(src) <= 40 && r.Chance(1, 12) {
